@@ -37,6 +37,10 @@ func parseScanArgs(args [][]byte) (cursor []byte, match string, count int, err e
 			if err != nil {
 				return
 			}
+			if count < 0 {
+				// a negative count means the default count, the same as 0
+				count = 0
+			}
 
 			i++
 		default:
